@@ -264,6 +264,6 @@ def batches(draw, prof):
 
 PROFILE = specgen.profile()
 PARTS = [
-    Part("metamorphic", check, strategy=lambda ctx: cases(PROFILE), budget={"quick": 120, "thorough": 1500}),
-    Part("hash-seed", check_hashseed, strategy=lambda ctx: batches(PROFILE), budget={"quick": 3, "thorough": 25}),
+    Part("metamorphic", check, strategy=lambda ctx: cases(PROFILE), budget={"quick": 300, "thorough": 1500}),
+    Part("hash-seed", check_hashseed, strategy=lambda ctx: batches(PROFILE), budget={"quick": 5, "thorough": 25}),
 ]
